@@ -633,11 +633,19 @@ def rs7(prog, rr):
                 rr.finding(b, n, "RandInfoBuilder.build", "RS7: toposort result is re-ordered: %s" % norm(n.iter))
             # rs_deps built as  rs_deps[f] = order_m[f]
     sw = prog.method("SolveGroupSwizzlerPartsel", "swizzle")
+    from sa.ir import local_defs as _ld
+    sdefs = _ld(sw.node)
+    rsn = sw.params[2] if len(sw.params) > 2 else "rs"
     for n in walk_local(sw.node):
-        if isinstance(n, ast.For) and "rand_order_l" in norm(n.iter):
-            rr.inst("swizzle ordered loop: for %s in %s" % (norm(n.target), norm(n.iter)))
-            if norm(n.iter) != "rs.rand_order_l":
-                rr.finding(sw, n, "SolveGroupSwizzlerPartsel.swizzle", "RS7: ordered groups are iterated as '%s', not in list order" % norm(n.iter))
+        if not isinstance(n, ast.For):
+            continue
+        # what the loop ranges over: its iterable, or - for a local - each expression that local may hold
+        srcs = [norm(d) for d in sdefs.get(n.iter.id, [])] if isinstance(n.iter, ast.Name) and sdefs.get(n.iter.id) else [norm(n.iter)]
+        for src in srcs:
+            if "rand_order_l" in src:
+                rr.inst("swizzle ordered loop: for %s in %s" % (norm(n.target), src))
+                if src != "%s.rand_order_l" % rsn:
+                    rr.finding(sw, n, "SolveGroupSwizzlerPartsel.swizzle", "RS7: ordered groups are iterated as '%s', not in list order" % src)
 
 
 def _trace_to_params(func, call, params):
@@ -662,17 +670,40 @@ def _trace_to_params(func, call, params):
     for n in ast.walk(func.node):
         for ch in ast.iter_child_nodes(n):
             par[ch] = n
+    # closure: an enclosing loop's variable stands for its iterable; a local stands for the nearest definition(s) that precede
+    # the call in source order inside the same function (`item_l = before` / `item_l = [before]` in the two branches of an if)
+    from sa.ir import local_defs as _ld
+    before_call = {}
+    for nm_, ds in _ld(func.node).items():
+        before_call[nm_] = [d for d in ds if getattr(d, "lineno", 0) <= call.lineno]
+    for _ in range(4):
+        grew = False
+        n = call
+        while n in par:
+            n = par[n]
+            if isinstance(n, ast.For) and isinstance(n.target, ast.Name) and n.target.id in names:
+                for x in ast.walk(n.iter):
+                    if isinstance(x, ast.Name) and x.id not in names:
+                        names.add(x.id)
+                        grew = True
+        for nm in list(names):
+            if nm in params:
+                continue
+            ds = before_call.get(nm, [])
+            # only the definitions closest to the call (the last assignment group before it)
+            if ds:
+                last = max(getattr(d, "lineno", 0) for d in ds)
+                near = [d for d in ds if last - getattr(d, "lineno", 0) <= 3]
+                for d in near:
+                    for x in ast.walk(d):
+                        if isinstance(x, ast.Name) and x.id not in names and x.id not in ("pop_expr", "to_expr"):
+                            names.add(x.id)
+                            grew = True
+        if not grew:
+            break
     for nm in list(names):
         if nm in params:
             out.add(nm)
-    # loop variable over a parameter
-    n = call
-    while n in par:
-        n = par[n]
-        if isinstance(n, ast.For) and isinstance(n.target, ast.Name) and n.target.id in names:
-            for x in ast.walk(n.iter):
-                if isinstance(x, ast.Name) and x.id in params:
-                    out.add(x.id)
     return out
 
 
